@@ -31,7 +31,7 @@ def judge(rec, variants):
         for cfgname in g["cfgs"]:
             n += 1
             h, a, o, s, am = cfgname.split("/")
-            oc, got, mg = mergeobs.run_merge(rec["l"], rec["r"], "/".join((h, a, o, s)), style, plain, anchors=am, rplain=rplain)
+            oc, got, mg = mergeobs.run_merge(rec["l"], rec["r"], "/".join((h, a, o, s)), style, plain, anchors=am, rplain=rplain, rdoc2=rec.get("r2"))
             problem = None
             if oc == "crash":
                 problem = ("crash", got)
@@ -96,6 +96,8 @@ def _anchor_relations(rec, got, am):
     for name, vals in byname.items():
         if len(vals) > 1:
             return "anchor %s reads several values in the result: %s" % (name, sorted(vals))
+    if rec.get("r2"):
+        return ""       # two merges in a row: which side "left" / "right" names changes with the step; the model's document decides
     la, ra = _defs(rec["l"]), _defs(rec["r"])
     for name in set(la) & set(ra):
         if la[name] != ra[name] and name in byname:
@@ -133,8 +135,13 @@ def random_pairs(ctx, n_pairs):
         if not (_has_anchor(l) and _has_anchor(r)):
             continue
         h, a, o, s = rng.choice(H), rng.choice(A), rng.choice(O), rng.choice(S)
+        # a third of the pairs get a second right-hand document, merged by the SAME Merger afterwards (a later document must
+        # be judged against the result of the earlier merge, not against anything remembered from before it)
+        r2 = randdocs.rand_doc(rng, max_nodes=10, max_depth=3, anchor_names=["A", "B"], anchor_p=0.5, alias_p=0.3) if rng.random() < 0.34 else []
+        if r2 and not _has_anchor(r2):
+            r2 = []
         for am in ("stop", "left", "right", "rename"):
-            recs.append({"id": len(recs), "l": l, "r": r, "h": h, "a": a, "o": o, "s": s, "am": am})
+            recs.append({"id": len(recs), "l": l, "r": r, "r2": r2, "h": h, "a": a, "o": o, "s": s, "am": am})
     exp = mergeobs.batch_expectations(ctx, recs, "rnd")
     items = []
     for i, r in enumerate(recs):
@@ -142,6 +149,8 @@ def random_pairs(ctx, n_pairs):
         rec = {"key": "rnd%d" % r["id"], "l": r["l"], "r": r["r"],
                "group": {"res": {"ok": e["ok"], "info": e["info"], "out": e["out"]},
                          "cfgs": ["%s/%s/%s/%s/%s" % (r["h"], r["a"], r["o"], r["s"], r["am"])]}}
+        if r["r2"]:
+            rec["r2"] = r["r2"]
         items.append((rec, [("block", False, bool((i // 4) % 2))]))
     total = info = conflicts = 0
     for n, out in querycorpus.pmap(_work, items, chunk=100):
